@@ -78,18 +78,26 @@ def run(ctx):
         cases.append("tr.subslice\t%s\t%d" % (hexs(d), len(pre) + len(ws)))
         cases.append("tr.stream\t%d\t%d,%d\t%s\t%d" % (len(d) + 9, len(pre) + len(ws), len(d), hexs(pre + ws + b"c=d"), rng.choice([0x7b, 0x7d])))
     ctx.count("inputs", len(ins))
+    # >>> a_c05 (wave 4): every case runs under the in-process per-case watchdog (harness/src/fam_c05.rs `c05.w`), so that a
+    # hang is reported after WATCHDOG_MS as ABORT for exactly that case instead of costing the runner's 600 s chunk timeout
+    from props import C05_inv
+    cases = [C05_inv.w(c) for c in cases]
+    # <<<
     for prof in PROFILES:
         impl, _ = ctx.correspond("entry_points_" + prof, cases, nontrivial=lambda c, i: not i.startswith("ERR") and i not in ("none", "NOKIND"), profile=prof, model=(prof == "release"))
         base = len(impl) - len(cases)
         for k, c in enumerate(cases):
             o = impl[base + k]
             if o in CRASH or o.startswith("RUNAWAY") or " RUNAWAY" in o:
-                ctx.fail("crash-" + c.split("\t")[0], "%s build: %s on %s" % (prof, o, c[:200].replace("\t", " ")), [c], [o], "a value or an error")
+                ctx.fail("crash-" + C05_inv.inner_kind(c), "%s build: %s on %s" % (prof, o, c[:200].replace("\t", " ")), [c], [o], "a value or an error")
     try:
         from props import C05_extra
         C05_extra.run_extra(ctx)
     except ImportError:
         pass
+    # >>> a_c05 (wave 4): inventory streams, see props/C05_inv.py and audit/C05.md
+    C05_inv.run_inv(ctx)
+    # <<<
 
 
 def search(ctx):
